@@ -335,7 +335,7 @@ Definition wfp (p : psub) : Prop :=
   | Heartbeat _ _ rid wid a b c => length rid = 4%nat /\ length wid = 4%nat /\ in_i64 a /\ in_i64 b /\ in_i32 c
   | HeartbeatFrag rid wid sn lf c => length rid = 4%nat /\ length wid = 4%nat /\ in_i64 sn /\ in_u32 lf /\ in_i32 c
   | InfoDst p => length p = 12%nat
-  | InfoReply m u _ => m = false /\ Forall wf_loc u /\ len u <= u32_max
+  | InfoReply m u mu => Forall wf_loc u /\ len u <= u32_max /\ (m = true -> Forall wf_loc mu /\ len mu <= u32_max)
   | InfoSrc a b c => length a = 2%nat /\ length b = 2%nat /\ length c = 12%nat
   | InfoTs _ s f => in_u32 s /\ in_u32 f
   | NackFrag rid wid sn st c => length rid = 4%nat /\ length wid = 4%nat /\ in_i64 sn /\ wf_fnset st /\ in_i32 c
@@ -516,14 +516,17 @@ Proof.
   apply rd_bind_ret with (g := fun f => InfoTs false s f). apply rd_u32_in; exact H2.
 Qed.
 Lemma rt_info_reply : forall e m u mu rest, wfp (InfoReply m u mu) ->
-  fst (parse_info_reply (flags_octet e []) (enc_body e (InfoReply m u mu) ++ rest)) = Ok (pcanon (InfoReply m u mu)).
+  fst (parse_info_reply (flags_octet e [m]) (enc_body e (InfoReply m u mu) ++ rest)) = Ok (pcanon (InfoReply m u mu)).
 Proof.
-  intros e m u mu rest (H1 & H2 & H3). subst m. use_flags (flags0 e).
-  unfold parse_info_reply. rewrite Fle, Ff1. apply run_rd. cbn [enc_body pcanon]. rewrite app_nil_r.
-  rewrite <- (app_nil_r (enc_locator_list e u)).
-  eapply rd_bind; [apply rd_locator_list; auto|].
-  change (@nil Z) with (@nil Z ++ []).
-  eapply rd_bind; [apply rd_pret|apply rd_pret].
+  intros e m u mu rest (H1 & H2 & H3). use_flags (flags1 e m).
+  unfold parse_info_reply. rewrite Fle, Ff1. apply run_rd. cbn [enc_body pcanon]. destruct m.
+  - destruct (H3 eq_refl) as [H4 H5].
+    eapply rd_bind; [apply rd_locator_list; auto|].
+    apply rd_bind_ret with (g := fun x => InfoReply true u x). apply rd_locator_list; auto.
+  - rewrite app_nil_r. rewrite <- (app_nil_r (enc_locator_list e u)).
+    eapply rd_bind; [apply rd_locator_list; auto|].
+    change (@nil Z) with (@nil Z ++ []).
+    eapply rd_bind; [apply rd_pret|apply rd_pret].
 Qed.
 
 Lemma rt_data : forall e q d k n rid wid sn qos pl rest,
@@ -861,10 +864,10 @@ Ltac wf_leaf :=
         | apply in_u32b_true; assumption | apply in_u16b_true; assumption | assumption ].
 Ltac wf_conj := repeat match goal with |- _ /\ _ => split end; try wf_leaf.
 
-Lemma build_sub_ok : forall e s, wf_subb s = true -> C08_known_len s = false -> C08_known_reply s = false ->
+Lemma build_sub_ok : forall e s, wf_subb s = true -> C08_known_len s = false ->
   exists p, build_sub s = Ok p /\ wfp p /\ fits e p /\ observe_sub (pcanon p) = Ok (canon_sub s) /\ sub_id p = sub_id s.
 Proof.
-  intros e s Hw Hk Hr.
+  intros e s Hw Hk.
   unfold C08_known_len in Hk. apply orb_false_iff in Hk as [Hlen Hq]. apply Z.ltb_ge in Hlen. unfold body_len in Hlen.
   assert (Fit : forall p, build_sub s = Ok p -> fits e p).
   { intros p Hp. rewrite Hp in Hlen. unfold fits. rewrite len_enc_body. exact Hlen. }
@@ -901,10 +904,11 @@ Proof.
     cbn [wfp]. apply arrb_length; exact Hw.
   - (* InfoReply *) split_wf Hw.
     exists (InfoReply mflag uni multi). split; [reflexivity|]. split; [|split; [apply Fit; reflexivity|split; reflexivity]].
-    cbn [wfp]. cbn [C08_known_reply] in Hr. destruct mflag; [discriminate|]. split; [reflexivity|]. split.
-    + apply Forall_forall. intros l Hl. rewrite forallb_forall in Hw. specialize (Hw l Hl).
-      unfold wf_locb in Hw. split_wf Hw. unfold wf_loc. wf_conj.
-    + apply Z.leb_le; assumption.
+    assert (WL : forall ls, forallb wf_locb ls = true -> Forall wf_loc ls).
+    { intros ls Hls. apply Forall_forall. intros l Hl. rewrite forallb_forall in Hls. specialize (Hls l Hl).
+      unfold wf_locb in Hls. split_wf Hls. unfold wf_loc. wf_conj. }
+    cbn [wfp]. split; [apply WL; assumption|]. split; [apply Z.leb_le; assumption|].
+    intros _. split; [apply WL; assumption|apply Z.leb_le; assumption].
   - (* InfoSrc *) split_wf Hw.
     exists (InfoSrc version vendor prefix). split; [reflexivity|]. split; [|split; [apply Fit; reflexivity|split; reflexivity]].
     cbn [wfp]. wf_conj.
@@ -924,17 +928,17 @@ Qed.
 
 (* --------------------------------------------------------------- whole messages *)
 Lemma mapM_build : forall e subs,
-  forallb wf_subb subs = true -> existsb C08_known_len subs = false -> existsb C08_known_reply subs = false ->
+  forallb wf_subb subs = true -> existsb C08_known_len subs = false ->
   exists ps, mapM build_sub subs = Ok ps /\ Forall wfp ps /\ Forall (fits e) ps /\
              map observe_sub (map pcanon ps) = map (fun s => Ok (canon_sub s)) subs /\
              map sub_id ps = map sub_id subs /\ length ps = length subs.
 Proof.
-  intros e subs; induction subs as [|s t IH]; intros Hw Hk Hr.
+  intros e subs; induction subs as [|s t IH]; intros Hw Hk.
   - exists []. repeat split; constructor.
   - cbn [forallb existsb] in *. apply andb_true_iff in Hw as [Hw1 Hw2].
-    apply orb_false_iff in Hk as [Hk1 Hk2]. apply orb_false_iff in Hr as [Hr1 Hr2].
-    destruct (IH Hw2 Hk2 Hr2) as (ps & E & F1 & F2 & M1 & M2 & L).
-    destruct (build_sub_ok e s Hw1 Hk1 Hr1) as (p & Ep & Wp & Fp & Op & Ip).
+    apply orb_false_iff in Hk as [Hk1 Hk2].
+    destruct (IH Hw2 Hk2) as (ps & E & F1 & F2 & M1 & M2 & L).
+    destruct (build_sub_ok e s Hw1 Hk1) as (p & Ep & Wp & Fp & Op & Ip).
     exists (p :: ps). cbn [mapM]. rewrite Ep, E. cbn [bind].
     split; [reflexivity|]. split; [constructor; assumption|]. split; [constructor; assumption|].
     cbn [map length]. rewrite Op, M1, Ip, M2, L. repeat split; reflexivity.
@@ -948,14 +952,14 @@ Qed.
 
 Theorem message_roundtrip : forall e h subs,
   wf_hdrb h = true -> forallb wf_subb subs = true -> len subs <= 65536 ->
-  existsb C08_known_len subs = false -> existsb C08_known_reply subs = false ->
+  existsb C08_known_len subs = false ->
   exists bytes,
     encode_umessage e h subs = Ok bytes /\
     parse_observe bytes = Ok (h, map (fun s => Ok (canon_sub s)) subs) /\
     lengths_exact e (map sub_id subs) (skipn 20 bytes) = true.
 Proof.
-  intros e h subs Hh Hw Hn Hk Hr.
-  destruct (mapM_build e subs Hw Hk Hr) as (ps & E & F1 & F2 & M1 & M2 & L).
+  intros e h subs Hh Hw Hn Hk.
+  destruct (mapM_build e subs Hw Hk) as (ps & E & F1 & F2 & M1 & M2 & L).
   apply wf_hdrb_wfh in Hh.
   exists (encode_message e h ps). unfold encode_umessage. rewrite E. cbn [bind].
   split; [reflexivity|]. split.
@@ -991,12 +995,6 @@ Proof.
   - vm_compute. reflexivity.
 Qed.
 
+(* regression of the repaired INFO_REPLY defect (4006ca4): with the multicast flag set, both
+   locator lists come back *)
 Definition reply_m : usub := InfoReply true [mk_loc 1 7400 (repeat 0 16)] [mk_loc 1 7401 (repeat 239 16)].
-Lemma roundtrip_refuted_reply :
-  forallb wf_subb [reply_m] = true /\ C08_known_len reply_m = false /\ C08_known_reply reply_m = true /\
-  exists bytes, encode_umessage true h0 [reply_m] = Ok bytes /\
-    parse_observe bytes = Ok (h0, [Ok (InfoReply false [mk_loc 1 7400 (repeat 0 16)] [])]).
-Proof.
-  split; [vm_compute; reflexivity|]. split; [vm_compute; reflexivity|]. split; [reflexivity|].
-  eexists. split; [reflexivity|]. vm_compute. reflexivity.
-Qed.
